@@ -5,7 +5,10 @@
                 pad_or_crop_to_spatial_shape, to_patient_orientation, handedness,
                 ensure_handedness; VolumeGeometry.__getitem__/pad/permute_spatial_axes/copy/
                 with_array; Volume.__getitem__/pad/permute_spatial_axes/copy/with_array/
-                get_channel/permute_channel_axes(_by_index)
+                get_channel/permute_channel_axes(_by_index); the coordinate -> index queries
+                inverse_affine, map_indices_to_reference, map_reference_to_indices,
+                VolumeToVolumeTransformer.affine, spacing / direction / position / center_position
+                (np.linalg.inv = Cramer's rule; np.sqrt enters only squared)
      spatial.py _transform_affine_matrix (permute_indices), _translate_affine_matrix,
                 get_closest_patient_orientation, _normalize_patient_orientation
    The affine lives over an arbitrary commutative ring R (Base/Lin3.v); the order tests of
